@@ -88,6 +88,8 @@ def order_sensitive_docs(rng, n, idx):
             live = ['X%d' % v, 'Y%d' % v]
             d = gen.grid_ro(live, 'none').replace('roCreate', 'roReplace').replace(
                 '<messageID>1</messageID>', '<messageID>5</messageID>')
+            # the replacement may be scheduled earlier or later than the running order it replaces: irrelevant to its place
+            d = d.replace('2020-01-01T12:30:00', rng.choice(['2019-12-31T08:00:00', '2020-06-01T09:00:00', '2020-01-01T12:30:00']))
         elif live:
             d = B.msg_doc('roStorySend', 5, story_ref=rng.choice(live), body=[B.E('p', 'v%d' % v)],
                           fields=[B.E('storySlug', 'sent at %d' % v), 'BODY'])
